@@ -121,14 +121,9 @@ theorem ipv6After_strict_lax (g : Mem) (sm : Bool) (o l : Nat) (r : IpR) (h : ip
   · rename_i hp src hb
     rw [ipv6Bound_strict_lax o l _ hp src hb]
     simp only
-    split at h
-    · contradiction
-    · contradiction
-    · rename_i r' hr'
-      have := extsWalkStrict_ok g sm _ _ _ r' hr'
-      cases h
-      rw [this.1]
-      simp [this.2, mkV6]
+    have := ipv6ChainStrict_ok g sm o hp src r h
+    rw [this.1]
+    simp [this.2, mkV6]
 
 /-! ### IP entry points -/
 
